@@ -67,6 +67,17 @@ HISTORY = {
     "C14-shortcircuit-env-copy-only-for-blocks": "missed at first: every effect of family X was carried by a plain block; effects carried by an if, a match and an operator over a block (three more u8 carriers, four more Boolean ones) now fill every hole",
     "C16-register-free-list-party-count": "missed by C16 at first (C10 caught it): no compiled program had more parties than input bits; three such programs added to the zero-sized program list shared by C05 and C16",
     "C17-block-type-from-any-expr-stmt": "missed at first: no rule turned a needed block value into an expression statement; rule TailThenLet (an if branch / a match arm / a fn body whose value is certainly needed ends in a `let` after its former tail) added",
+    "C03-mux-panic-cache-equal-size-shortcut": "missed by C03 (single-operator programs by design); C02 reports it (family S, dedup on / off differential)",
+    "C04-comparator-cache-ignores-signedness": "missed by every check at first: the builder search had no comparator request; one-bit comparators over the inputs, each pair unsigned and signed, added to the rich alphabet",
+    "C05-prune-fast-path-zero-sized-result": "missed by every check at first: zero-sized results only followed infallible bodies; four programs whose zero-sized result follows a failing operation (division, index + addition, shift, multiplication) added to the list shared by C05 and C16",
+    "C06-entry-point-any-pub-fn": "missed at first: every subject had a pub fn main; subjects without main / with a private main and several pub fns added",
+    "C07-enum-tag-size-ilog2": "missed by C07 at first (C05 caught it): no corpus program used a single-variant enum; a hand-written program with newtype / marker enums, an empty struct and arrays of units (indexed, assigned, iterated) added to the corpus",
+    "C08-enum-ctors-thread-local-cache": "missed by C08 at first (C06 caught it): every enum called E had the same definition; a second family whose enum E has other variants, run alternating with the first one in the same threads, added",
+    "C12-const-wires-bound-in-hash-order": "missed by C12 (which compiles under the default iteration order by design); C06 reports it (hash-order exploration of the constants subject)",
+    "C13-mux-envs-param-scope-copied": "missed by C13 at first (C14 caught it): loop bodies only assigned to locals; the join loop body now also assigns to a `mut` parameter of main",
+    "C15-single-variant-enum-tag-bit": "missed by every check at first: family D's skeleton has no single-variant enum; nine pure data-movement texts over single-variant enums, newtypes, marker enums and unit fields (AND count must be 0) added",
+    "C16-last-use-map-backward-pass": "missed by C16 (which does not convert hand-built circuits); C10 reports it (enumerated SSA circuits with unused gates)",
+    "C17-constrain-type-unary-overwrites": "missed at first: no mismatching expression had a unary operator at its root; holes !1, !k8, -ki, !(k8 + k8) (non-number types) and !true, !kb, !(kb == kb) (number types) and two condition templates added to KindMeetsType",
     "C17-match-arms-share-scope": "missed at first: UseAfterScope only covered loop variables and block locals; replaced by a reference model of lexical scoping (every use x every name bound elsewhere but not in scope)",
 }
 rows = []
